@@ -38,6 +38,7 @@ func prop(id, level, expl string, notCovered []string, rs ...*core.Rule) *core.P
 }
 
 var props = []*core.Property{
+	prop("C01", "proof", "x", nil, ruleBounds, ruleNoPanics, ruleDynCalls, ruleTermination, ruleSCC, ruleCap, rulePools, ruleTreeWF, ruleFreshResults, ruleErrorReturns),
 	prop("C03", "other", "structural necessary conditions of the first-match deepest-path walk", nil, ruleTreeWF, ruleWalkDiscipline, ruleCloneChain, ruleSnapshot),
 	prop("C02", "other", "x", nil, ruleNames, ruleTreeWF, ruleParams, ruleCloneChain, ruleErrorReturns),
 	prop("C04", "other", "x", nil, ruleLimitSlice, ruleInputImmutable, rulePools, rulePkgState, ruleSnapshot, ruleReader),
@@ -54,5 +55,5 @@ var props = []*core.Property{
 	prop("C06", "other", "x", nil, ruleAtomics, ruleLockset, ruleWriteOnce, ruleSharedAppend, rulePkgState, ruleSnapshot, ruleFreshResults),
 	prop("C18", "other", "x", nil, ruleTar),
 	prop("C19", "other", "x", nil, ruleZipMarkers, ruleZipSignatures, ruleZipWalk),
-	prop("C16", "other", "x", nil, ruleCap),
+	prop("C16", "proof", "x", nil, ruleSCC, ruleCap, ruleFailProp),
 }
